@@ -116,7 +116,7 @@ def _p_isfile(self, *a, **kw):
 
 def _p_unlink(self, *a, **kw):
     r = _unlink(self, *a, **kw)
-    if self.suffix in _MARK:
+    if self.suffix in _MARK or self.suffix == ".lock":  # (removal of the lock *name*: Model/RunnerLockIds)
         emit(ev="unlink", name=self.suffix)
     return r
 
